@@ -130,8 +130,9 @@ impl G {
             st.index(&mut index_of(&key));
             self.plain_table_index = true;
         }
-        // foreign keys to earlier tables (or to itself)
-        if self.r.chance(1, 3) {
+        // foreign keys to earlier tables (or to itself): none, one, or two (named or not, possibly both unnamed)
+        let nfk = match self.r.below(6) { 0 | 1 => 1, 2 => 2, _ => 0 };
+        for _ in 0..nfk {
             let target = if others.is_empty() || self.r.chance(1, 4) { t.clone() } else { self.r.pick(others).clone() };
             let k = 1 + self.r.below(target.cols.len().min(t.cols.len()).min(2) as u64) as usize;
             let fk = Fk { cols: t.cols.iter().take(k).map(|c| c.name.clone()).collect(), table: target.name.clone(), refs: target.cols.iter().take(k).map(|c| c.name.clone()).collect(),
